@@ -1306,3 +1306,79 @@ def C14(ck):
                       'byte image, values read, refusal after Close. non-trivial = distinct program with >= 2 operations')
     for f in (base + '.progs', base + '.ndjson', base + '.sum'):
         os.remove(f)
+
+
+# ------------------------------------------------------------------------------------------------
+def replay_file(pid, path):
+    """Re-execute the single case stored in a replay file on the current tree and judge it with the same trace spec.
+    Exit 1 (with a VIOLATION line) if the violation reproduces, 0 if it does not, 2 if the file cannot be replayed."""
+    import tempfile, re
+    d = json.load(open(path))
+    rp = d.get('replay') or {}
+    cmd = rp.get('cmd', '')
+    kzh = kzv.build_harness()
+    tmp = tempfile.mkdtemp(prefix='replay.', dir=os.path.join(kzv.BUILD, 'tlc'))
+    bad = None
+
+    def judge(spec, tracef):
+        res = kzv.validate_trace(spec, tracef, timeout=600)
+        if res.error or res.violated:
+            raise kzv.ToolFailure('trace spec failed: %s %s' % (res.error, res.violated))
+        hits = re.findall(r'<<"VIOLATION_AT", (\d+), "([^"]*)">>', res.out)
+        return hits[0][1] if hits else None
+    try:
+        if cmd in ('replay-reader', 'replay-writer'):
+            sf = os.path.join(tmp, 's.ndjson')
+            open(sf, 'w').write(json.dumps(rp['scenario']) + '\n')
+            rc, so, se, dt = kzv.run([kzh, cmd, sf, sf + '.res', str(rp.get('realB', 1024)), '1', '1'], timeout=300)
+            r = kzv.read_ndjson(sf + '.res')[0]
+            print(json.dumps({k: v for k, v in r.items() if k != 'events'}))
+            bad = r.get('pred') if r['status'] == 'violation' else None
+        elif cmd == 'rerun-writer':
+            rc, so, se, dt = kzv.run([kzh, 'rerun-writer', json.dumps(rp['run']), 'all'], timeout=600)
+            tf = os.path.join(tmp, 't.ndjson')
+            open(tf, 'w').write(json.dumps({'ev': 'Reset', 'run': 0, 'healthy': not (rp['run'].get('failAt') or rp['run'].get('failFrom'))}) + '\n' + so)
+            bad = judge('Trace_Writer', tf)
+        elif cmd in ('norm', 'names'):
+            key = 'event'
+            case = rp[key]
+            cf = os.path.join(tmp, 'c.ndjson')
+            if cmd == 'norm':
+                c = {'in': case['in'], 'lr': case['scale'].bit_length() - 1, 'conv': case['conv'], 'pos': 'spread'}
+                open(cf, 'w').write(json.dumps(c) + '\n')
+                kzv.run([kzh, 'norm', cf, cf + '.tr'], timeout=300)
+                bad = judge('Trace_Norm', cf + '.tr')
+            else:
+                raise kzv.ToolFailure('replay of a names case: re-run ./bin/check C15 (the case list is deterministic for a seed)')
+        elif cmd in ('xform', 'entropy'):
+            rc, so, se, dt = kzv.run([kzh, cmd, '-case', json.dumps(rp['case'])], timeout=600)
+            tf = os.path.join(tmp, 't.ndjson')
+            open(tf, 'w').write(so)
+            bad = judge('Trace_Transform' if cmd == 'xform' else 'Trace_Entropy', tf)
+        elif cmd == 'bits':
+            pf = os.path.join(tmp, 'p.ndjson')
+            open(pf, 'w').write(json.dumps(rp['program']) + '\n')
+            kzv.run([kzh, 'bits', '-n', '0', '-progs', pf, '-out', pf + '.tr'], timeout=300)
+            bad = judge('Trace_Bits', pf + '.tr')
+        elif cmd == 'child-decode':
+            lf = os.path.join(tmp, 'l.ndjson')
+            open(lf, 'w').write(json.dumps({'id': 1, 'base': '', 'mut': '', 'jobs': rp['jobs'], 'bound': rp['bound_ms'], 'file': rp['stream_file']}) + '\n')
+            p = kzv.subprocess.run([kzh, 'child-decode', lf, lf + '.res'], stdout=kzv.subprocess.PIPE, stderr=kzv.subprocess.PIPE, timeout=600)
+            lines = [json.loads(x) for x in open(lf + '.res')] if os.path.exists(lf + '.res') else []
+            last = lines[-1] if lines else {'status': 'crash'}
+            st = last.get('status')
+            if st == 'started' or p.returncode not in (0, 97):
+                st = 'crash'
+            print(json.dumps(last))
+            bad = ('C03_' + st) if st not in ('ok', 'err') else None
+        else:
+            raise kzv.ToolFailure('no single-case replay for %r: re-run ./bin/check %s with VERIF_SEED of the evidence file' % (cmd, pid))
+    finally:
+        import shutil
+        shutil.rmtree(tmp, ignore_errors=True)
+    if bad:
+        print('VIOLATION property=%s replay=%s' % (pid, path))
+        kzv.log('  reproduced:', bad)
+        return 1
+    print('OK property=%s replay=%s (not reproduced on the current tree)' % (pid, path))
+    return 0
